@@ -290,6 +290,10 @@ def r5_consumer_accounting(prog, rep: Report, pf: PoolFacts):
                 for x in [n.left] + n.comparators:
                     if isinstance(x, ast.Name):
                         fin = x.id
+        if fin is None:
+            rep.unrec("C01.R5", f, "accounting", f"the completion test `{src(test)}` does not compare a local finished counter with the sent "
+                      "counter (progress is read off something else)")
+            continue
         flow = Flow(f.node)
         probs: List[str] = []
         # receive: a, b = self._get_results()
@@ -440,7 +444,10 @@ def r6_conservation(prog, rep: Report, pf: PoolFacts):
                 if isinstance(v, ast.Tuple) and len(v.elts) == 2 and src(v.elts[0]) == f"[{ri}]" and src(v.elts[1]) == f"[{rc}]" \
                         and r.lineno > st.lineno:
                     direct = r
-        if apps:
+        if apps and not (ri in apps or rc in apps):
+            # the pair is appended in another form (one list of pairs): not the two role lists this rule follows
+            rep.unrec("C01.R6", f, role, f"({ri}, {rc}) are handed on as {sorted(apps)}, not appended to two role lists", st.lineno)
+        elif apps:
             ok = ri in apps and rc in apps and (apps[ri], apps[rc]) in ret_roles
             rep.check("C01.R6", f, role, ok, f"({ri}, {rc}) appended to ({apps.get(ri)}, {apps.get(rc)}), which are returned in that role order",
                       f"({ri}, {rc}) obtained from the queue are not both appended to the lists returned as (indices, chunks): "
@@ -450,8 +457,15 @@ def r6_conservation(prog, rep: Report, pf: PoolFacts):
         elif direct is not None:
             rep.ok("C01.R6", f, role, f"returned directly as ([{ri}], [{rc}])")
         else:
-            rep.viol("C01.R6", f, role, f"({ri}, {rc}) obtained by `{src(g)}` reach neither the returned lists nor a direct return",
-                     scenario="a received chunk is dropped: its results are lost and the call waits forever for it", line=st.lineno)
+            used_later = any(isinstance(n_, ast.Name) and n_.id in (ri, rc) and isinstance(n_.ctx, ast.Load) and n_.lineno >= st.lineno
+                             for n_ in ast.walk(f.node))
+            if used_later:
+                # the received pair travels on in a form this rule does not follow (a list of pairs, a helper's return value)
+                rep.unrec("C01.R6", f, role, f"({ri}, {rc}) obtained by `{src(g)}` are used, but not appended to / returned as the two role lists",
+                          st.lineno)
+            else:
+                rep.viol("C01.R6", f, role, f"({ri}, {rc}) obtained by `{src(g)}` are never used: they reach neither the returned lists nor a direct return",
+                         scenario="a received chunk is dropped: its results are lost and the call waits forever for it", line=st.lineno)
 
 
 # ---------------------------------------------------------------------------------------------- R7
@@ -542,7 +556,9 @@ def r9_call_local(prog, rep: Report, pf: PoolFacts, rule: str):
         for nm in names:
             inits = [n for n in f.node.body if isinstance(n, ast.Assign) and isinstance(n.targets[0], ast.Name)
                      and n.targets[0].id == nm and n.lineno < w.lineno]
-            if not (len(inits) == 1 and const_value(inits[0].value, None) == 0):
+            fresh_obj = len(inits) == 1 and isinstance(inits[0].value, ast.Call) and isinstance(inits[0].value.func, ast.Name) \
+                and inits[0].value.func.id[:1].isupper() and not inits[0].value.args        # buffer = Buffer(): progress read off a per-call object
+            if not (len(inits) == 1 and (const_value(inits[0].value, None) == 0 or fresh_obj)):
                 probs.append(f"the finished counter `{nm}` is not a local initialised to 0 inside the call")
         for n in walk_own(f.node):
             if isinstance(n, ast.Call) and isinstance(n.func, ast.Name) and n.func.id == "Buffer":
@@ -713,6 +729,17 @@ def feeder_early_exits(prog, rep: Report, pf: PoolFacts, rule: str):
             if isinstance(t, ast.BoolOp) and isinstance(t.op, ast.And):
                 return any(only_stop(v) for v in t.values)
             return False
+        def exhausted(t) -> bool:
+            """`x is None` for x = next(<iterator>, None): the input has run out, which is how a `while True` feeding loop ends"""
+            if isinstance(t, ast.Compare) and len(t.ops) == 1 and isinstance(t.ops[0], ast.Is) and isinstance(t.left, ast.Name) \
+                    and const_value(t.comparators[0], 0) is None:
+                fl_ = Flow(run_.node)
+                defs_ = list(fl_.defs_of(t.left))
+                return bool(defs_) and all(isinstance(d_.value, ast.Call) and src(d_.value.func) == "next" and len(d_.value.args) == 2
+                                           and const_value(d_.value.args[1], 0) is None for d_ in defs_)
+            return False
+        if isinstance(loop, ast.While) and exhausted(guard.test):
+            continue
         if not only_stop(guard.test):
             probs.append((e.lineno, f"the send loop is left under `{src(guard.test)}`, which does not require the stop event "
                                     f"self.{stop_ev}"))
